@@ -349,6 +349,8 @@ fn main() {
         reset.insert("mode".into(), hist.get("mode").cloned().unwrap_or(json!("plain")));
         reset.insert("streams".into(), hist.get("streams").cloned().unwrap_or(json!([])));
         reset.insert("cfg".into(), hist.get("cfg").cloned().unwrap_or(json!("")));
+        reset.insert("maxbuf".into(), json!(hist["maxbuf"].as_i64().unwrap_or(-1)));
+        reset.insert("faulty".into(), json!(hist.get("faults").map(|f| f.is_object()).unwrap_or(false)));
         let live = catch_unwind(AssertUnwindSafe(|| setup(hist, &dict)));
         let mut live = match live {
             Ok(Ok(l)) => {
@@ -414,6 +416,11 @@ fn main() {
                 let len = live.h.as_ref().map(|s| s.len() as i64).unwrap_or(-1);
                 ev.insert("len".into(), json!(len));
                 ev.insert("hname".into(), json!(live.hname.clone()));
+                // hook H2: the state of the handle's cache (fidelity of CfbHandle, Trace_HandleFid)
+                if let Some(s) = live.h.as_ref() {
+                    let (boff, pos, cap, dlen, dirty, total) = s.verif_state();
+                    ev.insert("hs".into(), json!([boff, pos, cap, dlen, dirty, total]));
+                }
                 if hist["hash"].as_bool() == Some(true) {
                     ev.insert("imghash".into(), json!(format!("{:016x}", fnv64(&live.buf.snapshot()))));
                 }
